@@ -1,0 +1,77 @@
+//go:build verif
+
+// Contracts for package synctree, checked by /verif (govc). Comment-only.
+package synctree
+
+// ---------------------------------------------------------------------------------------------
+// C15: tombstone gate.  checkTreeDeleted fails for every id whose head entry exists with a status
+// other than NotDeleted; creating a tree storage (PutSyncTree) and fetching a tree from a peer
+// (getTree) are reached only after that check passed for the same id.
+//@ ghost delChecked Bool stable
+//@ ghost delCheckedId Str stable
+//@ ghost createdStorage Bool stable
+//@ ghost requestedRemote Bool stable
+//@ uf headStatus(Iface, Str) Int
+//@ uf headErr(Iface, Str) Iface
+//@ func iface spacestorage.SpaceStorage.HeadStorage
+//@   pure
+//@ func iface headstorage.HeadStorage.GetEntry
+//@   modifies nothing
+//@   ensures result1 == headErr(arg0, arg2) && (result1 == nil ==> result0.DeletedStatus == headStatus(arg0, arg2))
+//@ func iface spacestorage.SpaceStorage.CreateTreeStorage
+//@   sets createdStorage = true
+//@ func iface spacestorage.SpaceStorage.TreeStorage
+//@   modifies nothing
+//@ package errors
+//@ func Is
+//@   modifies nothing
+//@ package github.com/anyproto/any-sync/commonspace/object/tree/synctree
+
+//@ func checkTreeDeleted
+//@   requires spaceStorage != nil
+//@   assumes spaceStorage.HeadStorage() != nil
+//@   ensures [tombstone_blocks] result == nil ==> headErr(spaceStorage.HeadStorage(), treeId) != nil || headStatus(spaceStorage.HeadStorage(), treeId) == 0
+//@   sets delChecked = result == nil
+//@   sets delCheckedId = treeId
+
+//@ func buildSyncTree
+//@   trusted
+//@ func PutSyncTree
+//@   requires payload.RootRawChange != nil && deps.SpaceStorage != nil
+//@   requires !createdStorage
+//@   ensures [create_only_after_tombstone_check] createdStorage ==> delChecked && delCheckedId == old(payload.RootRawChange.Id)
+
+// (a request that returns without error has collected at least one response, and the first collected
+// response installs the tree: sync/requestmanager.go SendRequest + CollectResponse - assumed here)
+//@ func (treeRemoteGetter).treeRequestLoop
+//@   trusted
+//@   ensures result2 == nil ==> result0 != nil && result0.objectTree != nil
+//@   sets requestedRemote = true
+//@ func (treeRemoteGetter).getTree
+//@   requires t.deps.SpaceStorage != nil
+//@   requires !requestedRemote
+//@   ensures [fetch_only_after_tombstone_check] requestedRemote ==> delChecked && delCheckedId == t.treeId
+
+// ---------------------------------------------------------------------------------------------
+// C11: handling of a peer's head update never dereferences a missing sub-message.  The generated
+// getters are nil-safe functions of their receiver.
+//@ func (*github.com/anyproto/any-sync/commonspace/object/tree/treechangeproto.TreeSyncMessage).GetContent
+//@   pure
+//@ func (*github.com/anyproto/any-sync/commonspace/object/tree/treechangeproto.TreeSyncContentValue).GetHeadUpdate
+//@   pure
+//@ func (*github.com/anyproto/any-sync/commonspace/object/tree/treechangeproto.TreeSyncContentValue).GetFullSyncRequest
+//@   pure
+//@ func (*github.com/anyproto/any-sync/commonspace/object/tree/treechangeproto.TreeSyncContentValue).GetFullSyncResponse
+//@   pure
+//@ func (*github.com/anyproto/any-sync/commonspace/object/tree/treechangeproto.TreeSyncMessage).UnmarshalVT
+//@   modifies younger arg0
+//@ package github.com/anyproto/any-sync/commonspace/sync/objectsync/objectmessages
+//@ func FreeHeadUpdate
+//@   modifies object arg0
+//@ func (*HeadUpdate).ObjectId
+//@   pure
+//@ package github.com/anyproto/any-sync/commonspace/object/tree/synctree
+//@ func (*syncHandler).HandleHeadUpdate
+//@   requires s != nil && statusUpdater != nil
+//@   assumes s.tree != nil && s.syncClient != nil
+//@   assumes headUpdate != nil ==> ifaceptr(headUpdate) != nil
